@@ -140,7 +140,6 @@ package keeper
 // ExtendMetaDuration: the model's deletion is moved to expiredAt if that is later than its current deletion height
 //@ func (Keeper) ExtendMetaDuration(ctx, dataId, expiredAt)
 //@   requires has(Metadata, dataId) && Metadata[dataId].CreatedAt + Metadata[dataId].Duration <= MaxUint64
-//@   requires [C11.extend.height] expiredAt >= Metadata[dataId].CreatedAt
 //@   requires [C11.sched.once] has(Metadata, dataId) && has(ExpiredData, u64(Metadata[dataId].CreatedAt + Metadata[dataId].Duration)) ==>
 //@       forall i int, j int :: 0 <= i && i < j && j < len(ExpiredData[u64(Metadata[dataId].CreatedAt + Metadata[dataId].Duration)].Data)
 //@         ==> !(ExpiredData[u64(Metadata[dataId].CreatedAt + Metadata[dataId].Duration)].Data[i] == dataId && ExpiredData[u64(Metadata[dataId].CreatedAt + Metadata[dataId].Duration)].Data[j] == dataId)
